@@ -112,14 +112,21 @@ CHECKS["C13"] = dict(
           "with the snappy library directly (not the filter) to the original and the stored form is shorter; values below the threshold "
           "untouched; reading the stored bytes back through a fresh GET-like and an array-reply request (compression on or switched off "
           "with the config present) returns the original. part unit-concurrent: 2..8 such cases at once (pooled writers/readers). part "
-          "banned: the six commands documented as disabled are stopped with an error iff compression is enabled. Non-trivial: some value "
-          "was actually stored compressed; distinct by canonical JSON of the request."),
+          "banned: the six commands documented as disabled are stopped with an error iff compression is enabled. part e2e: a real proxy with "
+          "compression in front of 1..3 simulated masters; histories (2..30 steps + final read-back) of writes by the nine commands (MSET "
+          "over several nodes, HMSET), reads (GET, MGET, GETSET's old value, HGET, HMGET, HGETALL, HVALS), toggling enable through "
+          "OnSvcConfigUpdate (config kept present), forcing a MOVED or ASK redirection of the next write (the key's slot is migrated right "
+          "before it), and the banned commands; oracle: every reply equals the reference keyspace's reply on the uncompressed data; the "
+          "bytes stored in the simulated node satisfy the same stored-form relation (nothing compressed while disabled); banned commands "
+          "get an error and no node logs an arrival. Non-trivial: some value was actually stored compressed (unit), and additionally the "
+          "write was redirected, or happened after a toggle, or was a multi-value command (e2e); distinct by canonical JSON."),
     assumptions=["values that themselves start with the magic number '(P$' are excluded by construction (the statement excludes them)",
                  "the snappy library (github.com/golang/snappy) is trusted as the decoder of the stored stream"],
     parts=[
         dict(name="unit", test="TestUnit", kind="rapid", checks={"quick": 1500, "thorough": 60000}, shards=16, timeout={"quick": 600, "thorough": 3000}),
         dict(name="unit-concurrent", test="TestUnitConcurrent", kind="rapid", checks={"quick": 150, "thorough": 6000}, shards=4, timeout={"quick": 600, "thorough": 3000}),
         dict(name="banned", test="TestBanned", kind="rapid", checks={"quick": 500, "thorough": 5000}, shards=1),
+        dict(name="e2e", test="TestE2E", kind="rapid", checks={"quick": 80, "thorough": 4000}, shards=16, timeout={"quick": 900, "thorough": 3400}, shrinktime="60s", gomaxprocs=4, crash_is_violation=True),
     ],
 )
 
